@@ -28,20 +28,20 @@ package jsonapi
 //@ func SoftCollection.AddAttr
 //@ props C19
 //@ requires nonnil: s != nil && s.Type != nil
-//@ requires wf: attrsWf(s.Type.Attrs)
+//@ requires wf: attrsWf(s.Type.Attrs) && fieldsDisjoint(*s.Type)
 //@ modifies obj[Type](s.Type), map[map[string]Attr](s.Type.Attrs), new[map[string]Attr]
-//@ ensures accept: (result == nil) == (attr.Name != "" && validKind(attr.Type) && !(attr.Name in old(mapdom(s.Type.Attrs))))
+//@ ensures accept: (result == nil) == (attr.Name != "" && validKind(attr.Type) && !(attr.Name in old(mapdom(s.Type.Attrs))) && !(attr.Name in old(mapdom(s.Type.Rels))))
 //@ ensures added: result == nil ==> attr.Name in s.Type.Attrs && s.Type.Attrs[attr.Name] == attr
-//@ ensures wf: attrsWf(s.Type.Attrs)
+//@ ensures wf: attrsWf(s.Type.Attrs) && fieldsDisjoint(*s.Type)
 
 //@ func SoftCollection.AddRel
 //@ props C19
 //@ requires nonnil: s != nil && s.Type != nil
-//@ requires wf: relsWf(s.Type.Rels)
+//@ requires wf: relsWf(s.Type.Rels) && fieldsDisjoint(*s.Type)
 //@ modifies obj[Type](s.Type), map[map[string]Rel](s.Type.Rels), new[map[string]Rel]
-//@ ensures accept: (result == nil) == (rel.FromName != "" && rel.ToType != "" && !(rel.FromName in old(mapdom(s.Type.Rels))))
+//@ ensures accept: (result == nil) == (rel.FromName != "" && rel.ToType != "" && !(rel.FromName in old(mapdom(s.Type.Rels))) && !(rel.FromName in old(mapdom(s.Type.Attrs))))
 //@ ensures added: result == nil ==> rel.FromName in s.Type.Rels && s.Type.Rels[rel.FromName] == rel
-//@ ensures wf: relsWf(s.Type.Rels)
+//@ ensures wf: relsWf(s.Type.Rels) && fieldsDisjoint(*s.Type)
 
 //@ spec scElemsWf(s *SoftCollection) = forall i int :: 0 <= i && i < len(s.col) ==> s.col[i] != nil && srTypeWf(s.col[i])
 //@ spec scIDsKept(s *SoftCollection) = forall i int :: 0 <= i && i < old(len(s.col)) ==> old(s.col[i]).id == old(s.col[i].id)
@@ -95,14 +95,14 @@ package jsonapi
 //@ flag absolute-quantifiers
 //@ props C19
 //@ requires nonnil: s != nil && r != nil && s.Type != nil
-//@ requires type-wf: attrsWf(s.Type.Attrs) && relsWf(s.Type.Rels)
+//@ requires type-wf: attrsWf(s.Type.Attrs) && relsWf(s.Type.Rels) && fieldsDisjoint(*s.Type)
 //@ requires res-wf: attrsWf(R_attrs($rh, r)) && relsWf(R_rels($rh, r))
 //@ modifies obj[SoftCollection](s), spare[*SoftResource](s.col), heap[Type], maps[map[string]any], maps[map[string]Attr], maps[map[string]Rel], new[SoftResource], new[*SoftResource], new[Type], new[map[string]any], new[map[string]Attr], new[map[string]Rel], new[time.Time], new[uint8], new[string]
 //@ ensures appended: len(s.col) == old(len(s.col)) + 1 && s.col[old(len(s.col))] != nil && fresh(s.col[old(len(s.col))])
 //@ ensures prefix: forall i int :: 0 <= i && i < old(len(s.col)) ==> s.col[i] == old(s.col[i])
 //@ ensures id: s.col[old(len(s.col))].id == str(R_get($rh, r, "id"))
 //@ ensures typ: s.col[old(len(s.col))].Type == s.Type && s.Type == old(s.Type)
-//@ ensures type-wf: attrsWf(s.Type.Attrs) && relsWf(s.Type.Rels)
+//@ ensures type-wf: attrsWf(s.Type.Attrs) && relsWf(s.Type.Rels) && fieldsDisjoint(*s.Type)
 //@ loop 0 invariant sr: sr != nil && fresh(sr) && sr.Type == s.Type && s.Type == pre(s.Type) && sr.id == pre(sr.id) && srTypeWf(sr)
 //@ loop 0 invariant col: s.col == pre(s.col) && unchanged(heap[*SoftResource]) && unchanged(heap[SoftCollection]) && unchanged(heap[SoftResource])
 //@ loop 0 invariant res-wf: attrsWf(R_attrs($rh, r)) && relsWf(R_rels($rh, r))
